@@ -194,7 +194,9 @@ func c05Scenarios(tier string) []*Scenario {
 			}
 			return false
 		}
-		aEnded := func(w *World) bool { return len(w.procs) > 0 && !w.procs[0].Alive() && w.lastStat["a"] != "Running" && w.lastStat["a"] != "" }
+		aEnded := func(w *World) bool {
+			return len(w.procs) > 0 && !w.procs[0].Alive() && w.lastStat["a"] != "Running" && w.lastStat["a"] != ""
+		}
 		add([]GNode{a, b, c, {Name: "x", Beh: "daemon"}}, []APICall{{Op: "stop", Name: "b"}, {Op: "start", Name: "c", When: aEnded}})
 		sc := scs[len(scs)-1]
 		sc.Procs["a"].Hold = func(w *World, pc int) bool { return !stopped(w) }
